@@ -45,6 +45,7 @@ type FuncContract struct {
 	Encoder    bool
 	Inline     bool
 	Trusted    bool
+	Pure       bool // side-effect free and loop free: calls are merged into one outcome
 	Lets       []Clause // Label = name
 	Requires   []Clause
 	Ensures    []Clause
@@ -55,6 +56,8 @@ type FuncContract struct {
 	// interface template
 	Iface  string
 	Method string
+	DetWhen    Expr
+	Determines []Expr // byte ranges whose final content must not depend on their initial content
 	NoTerm bool // loops may omit decreases (environment loops)
 	Ghost  []string
 }
@@ -137,7 +140,18 @@ func (cs *ContractSet) lookup(P *Program, fn *ssa.Function) *FuncContract {
 			for _, c := range t.Ensures {
 				out.Ensures = append(out.Ensures, renameClause(c, ren))
 			}
+			for _, a := range t.Assigns {
+				out.Assigns = append(out.Assigns, renameExpr(a, ren))
+			}
+			out.HasAssigns = out.HasAssigns || t.HasAssigns
+			for _, a := range t.Determines {
+				out.Determines = append(out.Determines, renameExpr(a, ren))
+			}
+			if t.DetWhen != nil {
+				out.DetWhen = renameExpr(t.DetWhen, ren)
+			}
 			out.Props = uniq(append(out.Props, t.Props...))
+			out.Pure = out.Pure || t.Pure
 			out.Decoder = out.Decoder || t.Decoder
 			out.Encoder = out.Encoder || t.Encoder
 		}
@@ -215,7 +229,7 @@ func pkgOfFile(P *Program, file string) (short string, path string) {
 
 var clauseWords = map[string]bool{"props": true, "decoder": true, "encoder": true, "inline": true,
 	"trusted": true, "requires": true, "ensures": true, "assigns": true, "let": true, "loop": true,
-	"noterm": true, "ghost": true}
+	"noterm": true, "ghost": true, "determines": true, "pure": true}
 
 func (cs *ContractSet) parseFile(P *Program, file string) error {
 	data, err := os.ReadFile(file)
@@ -394,6 +408,8 @@ func (ct *FuncContract) addClause(w, rest, where string) error {
 		ct.Inline = true
 	case "trusted":
 		ct.Trusted = true
+	case "pure":
+		ct.Pure = true
 	case "noterm":
 		ct.NoTerm = true
 	case "ghost":
@@ -441,6 +457,22 @@ func (ct *FuncContract) addClause(w, rest, where string) error {
 				return fmt.Errorf("assigns %q: %v", part, err)
 			}
 			ct.Assigns = append(ct.Assigns, x)
+		}
+	case "determines":
+		if k := strings.Index(rest, " when "); k >= 0 {
+			x, err := parseExpr(rest[k+6:])
+			if err != nil {
+				return fmt.Errorf("determines condition: %v", err)
+			}
+			ct.DetWhen = x
+			rest = rest[:k]
+		}
+		for _, part := range splitTop(rest, ',') {
+			x, err := parseExpr(part)
+			if err != nil {
+				return fmt.Errorf("determines %q: %v", part, err)
+			}
+			ct.Determines = append(ct.Determines, x)
 		}
 	case "loop":
 		f := strings.Fields(rest)
